@@ -95,6 +95,13 @@ def analyse(project: Project, functions: List[FunctionInfo]) -> List[dict]:
             par = parents.get(id(c))
             if isinstance(par, ast.Expr):
                 continue   # called for its effect
+            if isinstance(par, ast.NamedExpr):
+                # `(x := f()) is not None`: looked at before it is used
+                gp = parents.get(id(par))
+                if isinstance(gp, ast.Compare) and any(isinstance(x, ast.Constant) and x.value is None for x in [gp.left] + gp.comparators):
+                    continue
+                if isinstance(gp, (ast.If, ast.While, ast.BoolOp, ast.IfExp)) or (isinstance(gp, ast.UnaryOp) and isinstance(gp.op, ast.Not)):
+                    continue
             if isinstance(par, ast.Return) and mixed_returns(project, fi):
                 continue   # handed on by a function that is itself of this kind: reported where the value is used
             if isinstance(par, ast.Assign) and len(par.targets) == 1 and isinstance(par.targets[0], ast.Name):
